@@ -86,3 +86,8 @@ func VerifEncodeData(dataWords []int, columns int, level byte) ([]int, error) {
 	copy(d, dataWords)
 	return encodeData(d, columns, securitylevel(level))
 }
+
+// VerifCalcDimensions runs calcDimensions(dataWords, eccWords) and returns (cols, rows).
+func VerifCalcDimensions(dataWords, eccWords int) (int, int) {
+	return calcDimensions(dataWords, eccWords)
+}
